@@ -468,7 +468,8 @@ def gen_request(r, rid, tags, forged_ok=True):
         q["key"] = "other:" + r.choice([b"", b"wrong", SESSION_KEY.encode() + b"x", SESSION_KEY.encode()[:-1],
                                         bytes([SESSION_KEY.encode()[0] ^ 1]) + SESSION_KEY.encode()[1:]]).hex()
     elif tag == "forged-sig":
-        q["tamper"] = {"frame": "sig", "how": r.choice(["bit", "zero", "upper", "other-msg", "truncate"]), "bit": r.randrange(512)}
+        q["tamper"] = {"frame": "sig", "how": r.choice(["bit", "zero", "upper", "other-msg", "truncate", "empty", "empty", "prefix"]),
+                       "bit": r.randrange(512)}
     elif tag == "forged-content":
         q["tamper"] = {"frame": r.choice(["header", "parent", "metadata", "content"]), "how": r.choice(["bit", "bit", "swap"]),
                        "bit": r.randrange(4096)}
@@ -501,6 +502,10 @@ def build_wire(q, key):
             parts[k] = parts[k].upper()
         elif t["how"] == "truncate":
             parts[k] = parts[k][:-1]
+        elif t["how"] == "empty":          # a zero-length signature frame ("unsigned" message)
+            parts[k] = b""
+        elif t["how"] == "prefix":         # only the first characters of the right signature
+            parts[k] = parts[k][:t["bit"] % 8]
         elif t["how"] == "other-msg":
             parts[k] = sign([b"{}", b"{}", b"{}", b"{}"], key)
         elif t["how"] == "swap":           # a different (well-formed) frame in this position
